@@ -15,6 +15,8 @@ CONSTANTS
   FullStropKey = TRUE
   Docs = {1}
   PureFilters = FALSE
+  Confs = {0}
+  PureDerivedNames = TRUE
 VIEW View
 INVARIANT EmitBad
 CHECK_DEADLOCK FALSE
